@@ -774,4 +774,26 @@ def WFrame.wf (f : WFrame) (k : Nat × Bool) : Bool :=
   f.groups.all (fun g => isIdent g.name && decide g.members.Nodup && g.members.all fun n => (f.sigs.map (·.sg.name)).contains n) &&
   decide ((f.sigs.map (·.sg.name)).Nodup)
 
+/-! ## the ECUs of the file: the `BU_:` line at its beginning and the comments of the ECUs behind the comments of the signals -/
+
+structure WEcu where
+  name : Str
+  comment : Option Str := none
+  deriving Repr, DecidableEq, Inhabited
+
+def ecuCmStmts (es : List WEcu) : List FileStmt := es.filterMap fun e => e.comment.map fun c => .cm (.bu e.name) c
+
+/-- the core of a file with its ECUs -/
+def writeCoreE (es : List WEcu) (fs : List WFrame) : List Str :=
+  [renderBu (es.map (·.name)), []] ++ writeFrames (fs.map WFrame.block) ++
+  writeFile (fs.flatMap WFrame.txStmts ++ fs.flatMap WFrame.cmStmts ++ fs.flatMap WFrame.sigCmStmts ++ ecuCmStmts es ++
+    fs.flatMap WFrame.valStmts ++ fs.flatMap WFrame.valtypeStmts ++ fs.flatMap WFrame.grpStmts ++ fs.flatMap WFrame.mulStmts)
+
+def WEcu.expect (e : WEcu) : REcu := { name := e.name, comment := e.comment }
+
+/-- ECU names: identifiers of at least two characters, pairwise different; comments the statement can carry -/
+def wfEcus (es : List WEcu) : Bool :=
+  es.all (fun e => isIdent e.name && e.name.length ≥ 2 && (match e.comment with | some c => wfComment c | none => true)) &&
+  decide ((es.map (·.name)).Nodup)
+
 end CanVerif.Dbc
